@@ -979,6 +979,8 @@ coap_oscore_decrypt_pdu(coap_session_t *session,
     case COAP_OPTION_LOCATION_QUERY:
     case COAP_OPTION_BLOCK2:
     case COAP_OPTION_BLOCK1:
+    case COAP_OPTION_Q_BLOCK2:
+    case COAP_OPTION_Q_BLOCK1:
     case COAP_OPTION_SIZE2:
     case COAP_OPTION_SIZE1:
     case COAP_OPTION_NORESPONSE:
